@@ -71,7 +71,8 @@ def get_campus(number):
 def validate(number):
     """Check if the number is a valid EIN. This checks the length, groups and
     formatting if it is present."""
-    match = _ein_re.search(clean(number, '').strip())
+    number = clean(number, '').strip()
+    match = _ein_re.search(number)
     if not match:
         raise InvalidFormat()
     get_campus(number)  # raises exception for unknown campus
